@@ -183,6 +183,12 @@ def shared_objects(rng, n):
              [{k: d, "n": i} for i in range(300)], [b"x" * 300, b"x" * 300], [bytearray(b"q" * 70000)], [b"\xff" * 256],
              ["x" * 300] * 3 + [b"y" * 3] * 3, {i: k for i in range(1001)}, [d] * 1001, (d, (d, [d, {d: d}])),
              [bytes([i]) for i in range(256)], [bytearray([i, 255 - i]) for i in range(40)], b"", bytearray(), [b"", bytearray()]]
+    # objects fetched again long after they were memoized: memo indices of two and three bytes (LONG_BINGET / LONG_BINPUT)
+    for m in ((300, 700) if n < 1000 else (300, 700, 66000)):
+        late = ["s%d" % i for i in range(m)]
+        objs.append(late + [late[m - 1], late[0], late[256], late[255], late[m // 2]])
+    lb = [bytes([i % 256, i // 256]) + b"x" for i in range(400)]
+    objs.append([lb, lb[399], lb[257], {lb[300]: lb[1]}][1:] + lb)
     return objs
 
 
@@ -404,6 +410,8 @@ class C02:
         objs += [{float("nan"): 1, float("nan"): 2}, {(float("nan"), "a"): 1, (float("nan"), "a"): 2, 1.5: 3}, [float("nan"), float("nan")]]   # distinct NaN objects: distinct keys
         objs += [2 ** 1016, -2 ** 1016, 2 ** 2038, b"", bytearray(), [b"", bytearray(b"")], {(): 1}, {(1, (2, "a")): [1]},
                  "\ud800", ["a\udfffb"], {1: {2: {3: []}}}, [[]] * 2]
+        late = ["s%d" % i for i in range(300)]
+        objs.append(late + [late[299], late[0], late[256]])          # a GET with a two-byte memo index
         x = [1, 2]
         objs.append([x, x])
         d = {"k": 1}
@@ -779,6 +787,7 @@ class C09:
             out.append(p)
         out += [p for p in sharing_programs() if p[:1] in (b"}", b"(") and b"d" in p[:3] or p[:1] == b"}"]
         out += numeric_edge_dict_programs()
+        out += P.nested_tuple_key_programs()
         # one NaN float OBJECT used as a key more than once (through the memo / DUP; bare, in one shared tuple, in two
         # tuples): CPython compares "identical or equal", so these collapse there — known finding K6
         nan = b"G\x7f\xf8\x00\x00\x00\x00\x00\x00"
@@ -812,6 +821,12 @@ class C09:
             for cfg in CFGS:
                 lines.append(f"dec {cfg} - {hexs(p)}")
                 meta.append((cfg, p, o1 if cfg[1] == "1" else o0))
+        # keys that mix unicode, bytes and py2 str of one content (no Python dict can be compared with): og-rek's own rule - an
+        # assignment replaces EVERY entry whose key equals the new key - is what the model implements; model against implementation
+        for p in P.bytestring_tuple_key_programs():
+            for cfg in CFGS:
+                lines.append(f"dec {cfg} - {hexs(p)}")
+                meta.append((cfg, p, "TIE-ONLY"))
         go = C.run_sharded(C.run_go, lines)
         sens, lean = alias_sensitive(lines)
         for line, (cfg, p, o), g, l, k1 in zip(lines, meta, go, lean, sens):
